@@ -37,7 +37,7 @@ import (
 	"github.com/dolthub/dolt/go/zzverif/vh"
 )
 
-const c03Rule = "a rapid-drawn write history (put leaf / put+commit root chunk with synthetic refs / clean reopen / re-put / no-op commit / stale commit; genuine and forged-prefix addresses; index flush threshold maxNovel in {1,2,4,16,default}) is recorded on a journaling store; crash images = every record boundary at or after the first ack with offsets -5..+5, every byte inside up to two root records (sampled in the others) and extra cuts chosen by a drawn seed, each with a tail variant (dropped, zero-filled to old length, 4 KiB zeros, partial fresh record, garbage, garbage behind a plausible length word, zeros then garbage), an index variant (absent, final index, final index cut, index as on disk at that moment) and the manifest on disk at that moment; plus holes (a record zeroed / byte-flipped / garbled, later records kept up to a later cut). Each image is opened read-write, checked against the observed (size_after, root) acks and the chunk model, closed, reopened, and (sampled) written to. Non-trivial case: >= 3 acks, an image whose un-acked tail holds >= 1 complete and 1 partial record, and a cut strictly inside a root record; distinct by the hash of the op sequence + image plan."
+const c03Rule = "a rapid-drawn write history (put leaf / put+commit root chunk with synthetic refs / commit of an earlier root again, with or without pending puts, so that a commit may write no chunk record / clean reopen / re-put / no-op commit / stale commit; at every acknowledgement the on-disk journal must end with that root record and a copy of the on-disk directory must reopen to the acknowledged root; genuine and forged-prefix addresses; index flush threshold maxNovel in {1,2,4,16,default}) is recorded on a journaling store; crash images = every record boundary at or after the first ack with offsets -5..+5, every byte inside up to two root records (sampled in the others) and extra cuts chosen by a drawn seed, each with a tail variant (dropped, zero-filled to old length, 4 KiB zeros, partial fresh record, garbage, garbage behind a plausible length word, zeros then garbage), an index variant (absent, final index, final index cut, index as on disk at that moment) and the manifest on disk at that moment; plus holes (a record zeroed / byte-flipped / garbled, later records kept up to a later cut). Each image is opened read-write, checked against the observed (size_after, root) acks and the chunk model, closed, reopened, and (sampled) written to. Non-trivial case: >= 3 acks, an image whose un-acked tail holds >= 1 complete and 1 partial record, and a cut strictly inside a root record; distinct by the hash of the op sequence + image plan."
 
 const (
 	c03TailDropped = iota
@@ -464,7 +464,7 @@ func c03Case(rt *rapid.T, rec *vh.Recorder, base string) {
 	dir := filepath.Join(base, "hist")
 	_ = os.RemoveAll(dir)
 	defer os.RemoveAll(dir)
-	cfg := verifJHistCfg{minOps: 6, maxOps: vh.N(26, 34), maxNovels: []int{1, 2, 4, 16, 0}, bigChunks: vh.Thorough(), smallMemtable: true}
+	cfg := verifJHistCfg{minOps: 6, maxOps: vh.N(26, 34), maxNovels: []int{1, 2, 4, 16, 0}, bigChunks: vh.Thorough(), smallMemtable: true, ackImages: true}
 	defer verifJWithBufSize(rapid.SampledFrom(verifJBufSizes).Draw(rt, "journalWriterBuffSize"))()
 	h := verifJBuildHistory(rt, dir, cfg)
 	x := &c03Ctx{rt: rt, h: h, imgDir: filepath.Join(base, "img"), classes: map[string]int{}, recEnd: map[hash.Hash]int64{}}
@@ -584,6 +584,11 @@ func c03Case(rt *rapid.T, rec *vh.Recorder, base string) {
 	if h.memSz > 0 {
 		cl = append(cl, "small_memtable")
 	}
+	for c, k := range h.classes {
+		rec.Class(c, k)
+	}
+	rec.Class("ack_images_reopened", h.nAckImg)
+	x.images += h.nAckImg
 	if h.reopens > 0 {
 		cl = append(cl, "has_reopen")
 	}
@@ -602,7 +607,7 @@ func c03FirstCommitCase(rt *rapid.T, rec *vh.Recorder, base string) {
 	_ = os.RemoveAll(dir)
 	defer os.RemoveAll(dir)
 	defer verifJWithBufSize(rapid.SampledFrom(verifJBufSizes).Draw(rt, "journalWriterBuffSize"))()
-	h := verifJBuildHistory(rt, dir, verifJHistCfg{minOps: 0, maxOps: 0, maxNovels: []int{0, 0, 2}, firstPuts: 5})
+	h := verifJBuildHistory(rt, dir, verifJHistCfg{minOps: 0, maxOps: 0, maxNovels: []int{0, 0, 2}, firstPuts: 5, ackImages: true})
 	x := &c03Ctx{rt: rt, h: h, imgDir: filepath.Join(base, "first-img"), classes: map[string]int{}}
 	defer os.RemoveAll(x.imgDir)
 	x.seed = rapid.Uint64().Draw(rt, "variantSeed")
